@@ -150,6 +150,7 @@ fn run_case_inner(case: &Case) -> CaseResult {
         .label_if(f.spend_before_receipt, "spend-before-receipt")
         .label_if(f.rewind_removed_wallet_tx, "rewind-removes-wallet-tx")
         .label_if(f.big_batch, "batch>102")
+        .label_if(f.early_spend_in_big_out_of_order_batch, "batch>102-above-gap-with-early-spend-of-gap-note")
         .label_if(deep, "chain>100")
         .label_if(st.live_orphan_states > 0, "live-orphan-state")
         .label_if(f.truncate_refused > 0, "truncate-refused")
@@ -182,7 +183,7 @@ fn main() {
     ctx.require_label_fraction("histories", "rewind-removes-wallet-tx", 0.10);
     ctx.require_label_fraction("histories", "spend-before-receipt", 0.05);
     ctx.require_label_fraction("histories", "orphan-expiry-boundary-probed", 0.04);
-    ctx.run_prop_with("long-chains", || arb_case(14, 100), tier.pick(64, 3_000), 60, run_case);
+    ctx.run_prop_with("long-chains", || arb_case(14, 100), tier.pick(128, 4_000), 60, run_case);
     ctx.require_label_fraction("long-chains", "chain>100", 0.9);
     ctx.require_label_fraction("long-chains", "batch>102", 0.2);
     ctx.finish();
